@@ -943,13 +943,47 @@ def _build_compare(node: ast.Compare, parent: Module | Class, **kwargs: Any) -> 
     )
 
 
-def _build_comprehension(node: ast.comprehension, parent: Module | Class, **kwargs: Any) -> Expr:
+def _build_comprehension(
+    node: ast.comprehension,
+    parent: Module | Class,
+    *,
+    iter_local_names: frozenset[str] | None = None,
+    **kwargs: Any,
+) -> Expr:
+    iter_kwargs = kwargs if iter_local_names is None else {**kwargs, "local_names": iter_local_names}
     return ExprComprehension(
         _build(node.target, parent, **kwargs),
-        _build(node.iter, parent, **kwargs),
+        _build(node.iter, parent, **iter_kwargs),
         [_build(condition, parent, **kwargs) for condition in node.ifs],
         is_async=bool(node.is_async),
     )
+
+
+def _build_generators(
+    generators: list[ast.comprehension],
+    parent: Module | Class,
+    *,
+    local_names: frozenset[str] = frozenset(),
+    **kwargs: Any,
+) -> tuple[list[Expr], dict[str, Any]]:
+    # The targets of a comprehension are local to it: they are not names of the enclosing scopes.
+    # Only the iterable of the first `for` clause is evaluated outside of the comprehension.
+    targets = {
+        name.id
+        for generator in generators
+        for name in ast.walk(generator.target)
+        if isinstance(name, ast.Name) and isinstance(name.ctx, ast.Store)
+    }
+    kwargs["local_names"] = local_names | targets
+    return [
+        _build_comprehension(
+            generator,
+            parent,
+            iter_local_names=local_names if index == 0 else None,
+            **kwargs,
+        )
+        for index, generator in enumerate(generators)
+    ], kwargs
 
 
 def _build_constant(
@@ -1002,11 +1036,8 @@ def _build_dict(node: ast.Dict, parent: Module | Class, **kwargs: Any) -> Expr:
 
 
 def _build_dictcomp(node: ast.DictComp, parent: Module | Class, **kwargs: Any) -> Expr:
-    return ExprDictComp(
-        _build(node.key, parent, **kwargs),
-        _build(node.value, parent, **kwargs),
-        [_build(gen, parent, **kwargs) for gen in node.generators],
-    )
+    generators, kwargs = _build_generators(node.generators, parent, **kwargs)
+    return ExprDictComp(_build(node.key, parent, **kwargs), _build(node.value, parent, **kwargs), generators)
 
 
 def _build_formatted(
@@ -1020,10 +1051,8 @@ def _build_formatted(
 
 
 def _build_generatorexp(node: ast.GeneratorExp, parent: Module | Class, **kwargs: Any) -> Expr:
-    return ExprGeneratorExp(
-        _build(node.elt, parent, **kwargs),
-        [_build(gen, parent, **kwargs) for gen in node.generators],
-    )
+    generators, kwargs = _build_generators(node.generators, parent, **kwargs)
+    return ExprGeneratorExp(_build(node.elt, parent, **kwargs), generators)
 
 
 def _build_ifexp(node: ast.IfExp, parent: Module | Class, **kwargs: Any) -> Expr:
@@ -1050,7 +1079,16 @@ def _build_keyword(node: ast.keyword, parent: Module | Class, function: Expr | N
     return ExprKeyword(node.arg, _build(node.value, parent, **kwargs), function=function)
 
 
-def _build_lambda(node: ast.Lambda, parent: Module | Class, **kwargs: Any) -> Expr:
+def _build_lambda(
+    node: ast.Lambda,
+    parent: Module | Class,
+    *,
+    local_names: frozenset[str] = frozenset(),
+    **kwargs: Any,
+) -> Expr:
+    parameters = get_parameters(node.args)
+    # The parameters of a lambda are local to its body; their default values are evaluated outside of it.
+    default_kwargs = {**kwargs, "parse_strings": False, "local_names": local_names}
     return ExprLambda(
         parameters=[
             ExprParameter(
@@ -1058,12 +1096,12 @@ def _build_lambda(node: ast.Lambda, parent: Module | Class, **kwargs: Any) -> Ex
                 kind=kind,
                 annotation=None,
                 default=default
-                if isinstance(default, str)
-                else safe_get_expression(default, parent=parent, parse_strings=False),
+                if isinstance(default, str) or default is None
+                else _build(default, parent, **default_kwargs),
             )
-            for name, _, kind, default in get_parameters(node.args)
+            for name, _, kind, default in parameters
         ],
-        body=_build(node.body, parent, **kwargs),
+        body=_build(node.body, parent, local_names=local_names | {name for name, *_ in parameters}, **kwargs),
     )
 
 
@@ -1072,11 +1110,19 @@ def _build_list(node: ast.List, parent: Module | Class, **kwargs: Any) -> Expr:
 
 
 def _build_listcomp(node: ast.ListComp, parent: Module | Class, **kwargs: Any) -> Expr:
-    return ExprListComp(_build(node.elt, parent, **kwargs), [_build(gen, parent, **kwargs) for gen in node.generators])
+    generators, kwargs = _build_generators(node.generators, parent, **kwargs)
+    return ExprListComp(_build(node.elt, parent, **kwargs), generators)
 
 
-def _build_name(node: ast.Name, parent: Module | Class, **kwargs: Any) -> Expr:  # noqa: ARG001
-    return ExprName(node.id, parent)
+def _build_name(
+    node: ast.Name,
+    parent: Module | Class,
+    *,
+    local_names: frozenset[str] = frozenset(),
+    **kwargs: Any,  # noqa: ARG001
+) -> Expr:
+    # Names bound by the expression itself (comprehension targets, lambda parameters) have no path.
+    return ExprName(node.id, None if node.id in local_names else parent)
 
 
 def _build_named_expr(node: ast.NamedExpr, parent: Module | Class, **kwargs: Any) -> Expr:
@@ -1088,7 +1134,8 @@ def _build_set(node: ast.Set, parent: Module | Class, **kwargs: Any) -> Expr:
 
 
 def _build_setcomp(node: ast.SetComp, parent: Module | Class, **kwargs: Any) -> Expr:
-    return ExprSetComp(_build(node.elt, parent, **kwargs), [_build(gen, parent, **kwargs) for gen in node.generators])
+    generators, kwargs = _build_generators(node.generators, parent, **kwargs)
+    return ExprSetComp(_build(node.elt, parent, **kwargs), generators)
 
 
 def _build_slice(node: ast.Slice, parent: Module | Class, **kwargs: Any) -> Expr:
